@@ -236,6 +236,36 @@ theorem chanPush_E (cfg : Cfg) (hc : cfg.allChecked = true) {w : World} (h : EIn
           · rw [set_other _ _ _ _ hcc] at hp'; exact Or.inl hp'
       exact schedule_E cfg hb h1 _ _ _ _ _ _ (hr.2 hl.symm)
 
+theorem superPush_E (cfg : Cfg) (hc : cfg.allChecked = true) {w : World} (h : EInv w) (c : Nat) (x : Val) :
+    EInv (superPush cfg w c x) := by
+  obtain ⟨-, -, hps, -, -, -, -, -, hb, -, -⟩ := allChecked_fields hc
+  unfold superPush
+  split
+  · exact h
+  · rw [hps]
+    cases hp : popLive true w (w.chans c).rp with
+    | mk o rest =>
+      have hm := popLive_mem true w (w.chans c).rp
+      have hch : ∀ (its : List Val) (rest' : List Pending), (∀ p ∈ rest', p ∈ (w.chans c).rp) →
+          EInv { w with chans := set w.chans c { (w.chans c) with items := its, rp := rest' } } := by
+        intro its rest' hsub
+        refine h.chans _ ?_ ?_
+        · intro c' p hp'
+          by_cases hcc : c' = c
+          · subst hcc; simp only [set_same] at hp'; exact Or.inl (hsub p hp')
+          · rw [set_other _ _ _ _ hcc] at hp'; exact Or.inl hp'
+        · intro c' p hp'
+          by_cases hcc : c' = c
+          · subst hcc; simp only [set_same] at hp'; exact Or.inl hp'
+          · rw [set_other _ _ _ _ hcc] at hp'; exact Or.inl hp'
+      cases o with
+      | none => exact hch _ [] (by simp)
+      | some r =>
+        simp only
+        have hl := popLive_live w _ r rest hp
+        have hr := h.rp c r (hm.1 r rest hp)
+        exact schedule_E cfg hb (hch (w.chans c).items rest (hm.2 _ rest hp)) _ _ _ _ _ _ (hr.2 hl.symm)
+
 theorem chanPopWake_E (cfg : Cfg) (hc : cfg.allChecked = true) {w : World} (h : EInv w) (c : Nat) (items : List Val) :
     EInv (chanPopWake cfg w c items) := by
   obtain ⟨-, -, -, hps, -, -, -, -, hb, -, -⟩ := allChecked_fields hc
@@ -632,6 +662,7 @@ theorem step_E (cfg : Cfg) (hc : cfg.allChecked = true) {w : World} (h : EInv w)
         · split <;> exact h1
         · exact h1
   | procFlag k x => exact h.frame rfl rfl rfl rfl rfl rfl rfl
+  | superPush c x => exact superPush_E cfg hc h c x
   | thrWait f k =>
     simp only [step, thrWait]
     refine h.transfer (Adv.of_fibers rfl) (fun t ht => Or.inl ht) (fun c p hp => Or.inl hp) (fun c p hp => Or.inl hp)
